@@ -70,6 +70,7 @@ func caseClause(fn *an.Fn, name string) *ast.CaseClause {
 }
 
 func runC08(c *an.Ctx) {
+	c08paramScope(c, "C08.params")
 	c08order(c)
 	c08root(c)
 	c08lookup(c)
